@@ -70,7 +70,8 @@ func (b *deprecatedStateBackend) Store(
 	newClasses map[felt.Felt]core.ClassDefinition,
 ) error {
 	//nolint:staticcheck,nolintlint // used by old state
-	return b.database.Update(func(txn db.IndexedBatch) error {
+	var filterUpdated bool
+	return b.resetFilterOnError(&filterUpdated, b.database.Update(func(txn db.IndexedBatch) error {
 		if err := verifyBlockSuccession(txn, block); err != nil {
 			return err
 		}
@@ -97,13 +98,15 @@ func (b *deprecatedStateBackend) Store(
 			return err
 		}
 
+		filterUpdated = true
 		return b.runningFilter.InsertWithBatch(txn, block.EventsBloom, block.Number)
-	})
+	}))
 }
 
 func (b *deprecatedStateBackend) RevertHead() error {
 	//nolint:staticcheck,nolintlint // used by old state
-	return b.database.Update(func(txn db.IndexedBatch) error {
+	var filterUpdated bool
+	return b.resetFilterOnError(&filterUpdated, b.database.Update(func(txn db.IndexedBatch) error {
 		blockNumber, err := core.GetChainHeight(txn)
 		if err != nil {
 			return err
@@ -127,8 +130,9 @@ func (b *deprecatedStateBackend) RevertHead() error {
 			return err
 		}
 
+		filterUpdated = true
 		return b.runningFilter.OnReorgWithBatch(txn)
-	})
+	}))
 }
 
 func (b *deprecatedStateBackend) GetReverseStateDiff() (core.StateDiff, error) {
@@ -200,7 +204,8 @@ func (b *deprecatedStateBackend) Finalise(
 	sign core.BlockSignFunc,
 ) error {
 	//nolint:staticcheck,nolintlint // used by old state
-	return b.database.Update(func(txn db.IndexedBatch) error {
+	var filterUpdated bool
+	return b.resetFilterOnError(&filterUpdated, b.database.Update(func(txn db.IndexedBatch) error {
 		err := updateStateRoots(deprecatedstate.New(txn), block, stateUpdate, newClasses)
 		if err != nil {
 			return err
@@ -231,8 +236,9 @@ func (b *deprecatedStateBackend) Finalise(
 			return err
 		}
 
+		filterUpdated = true
 		return b.runningFilter.InsertWithBatch(txn, block.EventsBloom, block.Number)
-	})
+	}))
 }
 
 func (b *deprecatedStateBackend) VerifyBlockHash(
